@@ -36,8 +36,13 @@ AcrossLoop == <<InsLit("add-int/lit8", 0, 3, 1), InsLit("and-int/lit8", 4, 4, 3)
                 [I(0) EXCEPT !.op = "if-lt", !.a = 2, !.b = 4, !.t = 5], Ins("add-int", 1, 1, 3), Ret(1)>>
 Propagated == {M(AcrossBranch(ow), 3, 1, <<"I", "I">>, "I") : ow \in {InsLit("mul-int/lit8", 1, 1, 2), InsLit("add-int/lit8", 1, 1, -1), Ins("sub-int/2addr", 1, 2, 0), Ins("move", 1, 2, 0)}}
               \cup {M(AcrossLoop, 5, 3, <<"I", "I">>, "I")}
+\* long operations whose operands are ints widened just before (p0 = v4, p1 = v5; v0-1, v2-3 temporaries): the arithmetic is 64-bit
+Widened == {M(<<Ins("int-to-long", 0, 4, 0), Ins("int-to-long", 2, 5, 0), Ins(nm \o "-long", 0, 0, 2), RetW(0)>>, 6, 4, <<"I", "I">>, "J") : nm \in LongAlu}
+           \cup {M(<<Ins("int-to-long", 0, 4, 0), Ins(nm \o "-long", 0, 0, 5), RetW(0)>>, 6, 4, <<"I", "I">>, "J") : nm \in {"shl", "shr", "ushr"}}
+           \cup {M(<<Ins("int-to-long", 0, 4, 0), Ins("mul-long", 0, 0, 0), RetW(0)>>, 6, 4, <<"I", "I">>, "J"),
+                 M(<<Ins("int-to-long", 0, 4, 0), Ins("neg-long", 0, 0, 0), RetW(0)>>, 6, 4, <<"I", "I">>, "J")}
 Methods ==
-  Aliased \cup Propagated \cup
+  Aliased \cup Propagated \cup Widened \cup
   {M(<<Ins(nm \o "-int", 0, 2, 3), Ret(0)>>, 4, 2, <<"I", "I">>, "I") : nm \in IntAlu}
   \cup {M(<<Ins(nm \o "-int/2addr", 2, 3, 0), Ret(2)>>, 4, 2, <<"I", "I">>, "I") : nm \in IntAlu}
   \cup {M(<<InsLit(nm \o "-int/lit16", 0, 1, lt), Ret(0)>>, 2, 1, <<"I">>, "I") : nm \in Lit16Alu, lt \in Lits16}
